@@ -664,6 +664,52 @@ def gen_x_nested(rng):
     return case
 
 
+# ---- str-accepting options holding strings that LOOK like something else to a YAML 1.1 / custom-float resolver ------------
+LOOKALIKE = ["1e3", "-1e3", "+2E10", "-1.5e3", "1.5e-3", "1E5", "+1e3", "-.5e2", "1_000", "-1_0", "0x1F", "-0x1f", "0o7", "010", "0b11",
+             "1:30", "-1:30:00", "190:20:30.15", ".5", "-.5", "+.5", "5.", "-5.", "1.", ".inf", "-.inf", "+.INF", ".nan", ".NaN",
+             "yes", "No", "ON", "off", "y", "n", "true", "False", "TRUE", "NULL", "null", "Null", "~", "", " ", "2001-01-01",
+             "2001-01-01 10:00:00", "=", "<<", "-", "--", "+", "- a", "a: b", "a:b", "#x", "x #y", "[1]", "{a: 1}", "'q'", '"q"', "*a",
+             "&a", "!t", "%d", "@a", "`a", "|", ">", "?", ": ", "-1", "+1", "007", "1e", "e3", "1e+", "0.1.2", "1,000", "١٢"]
+TEXT_TYPES = [STR, ["union", [STR, NON]], ["list", STR], ["dict", False, STR], ["union", [STR, FLT]], ["union", [FLT, STR]],
+              ["union", [STR, INT]], ["union", [INT, STR]], ["union", [STR, BOOL]], ["union", [BOOL, STR, NON]], ["tuple", [STR, INT]],
+              ["tuplevar", STR], ["set", STR], ["list", ["union", [STR, NON]]], ["dict", False, ["union", [STR, FLT]]], ANY,
+              ["lit", [S("yes"), S("1e3"), S("-1e3")]]]
+
+
+def gen_x_text(rng):
+    t = rng.choice(TEXT_TYPES)
+    pick = lambda: S(rng.choice(LOOKALIKE))  # noqa: E731
+    k = t[0]
+    if k == "list" or k == "tuplevar":
+        v = L([pick() for _ in range(rng.randint(1, 3))])
+    elif k == "set":
+        v = L([pick()])
+    elif k == "dict":
+        v = D([(S(rng.choice(["a", "b", "key"])), pick()) for _ in range(1)] + ([(S("z"), pick())] if rng.random() < 0.5 else []))
+    elif k == "tuple":
+        v = L([pick(), I(2)])
+    elif k == "lit":
+        v = rng.choice(t[1])
+    else:
+        v = pick()
+    dflt = NONE
+    ch = rng.choice(["object", "object", "args", "string", "cfgfile"])
+    if v[0] == "str" and ch == "args" and v[1].startswith("-") and False:
+        ch = "object"
+    case = {"kind": "x", "decls": [{"key": "k", "ty": t, "default": dflt}], "channel": ch}
+    quoted = json.dumps(v[1]) if v[0] == "str" else render(v)
+    if ch == "object":
+        case["input"] = D([(S("k"), v)])
+    elif ch == "args":
+        case["input"] = ["--k=" + (v[1] if v[0] == "str" else render(v))]
+    elif ch == "string":
+        case["input"] = "k: " + quoted + "\n"
+    else:
+        case["files"] = {"main.yaml": "k: " + quoted + "\n"}
+        case["input"] = ["--cfg=main.yaml"]
+    return case
+
+
 def gen_x(rng):
     r = rng.random()
     if r < 0.3:
@@ -672,6 +718,8 @@ def gen_x(rng):
         return gen_x_path(rng)
     if r < 0.6:
         return gen_x_nested(rng)
+    if r < 0.72:
+        return gen_x_text(rng)
     r = rng.random()
     if r < 0.25:
         # a modelled type through the argv / string channel, now and then with a list append
